@@ -77,7 +77,11 @@ func c01Generate(r *rand.Rand, long bool) c01Scenario {
 	sc.SplitPct = []int{0, 0, 30, 70}[r.Intn(4)]
 	sc.PolDesc = fmt.Sprintf("split=%d batch=%d fairness=%d procPct=%d permute=%v dupPct=%d", sc.SplitPct, sc.Batch, sc.Pol.fairness, sc.Pol.procPct, sc.Pol.permute, sc.Pol.dupPct)
 	nsteps := 2 + r.Intn(7)
-	if r.Intn(3) == 0 {
+	if r.Intn(4) == 0 {
+		// the peer mines one more block just when the node has seen the end of the header chain
+		// and is about to finish its last blocks
+		sc.Steps = append(sc.Steps, c01Step{Op: "syncrace"}, c01Step{Op: "settle"})
+	} else if r.Intn(3) == 0 {
 		sc.Steps = append(sc.Steps, c01Step{Op: "partial", N: 1 + r.Intn(40)})
 	} else {
 		sc.Steps = append(sc.Steps, c01Step{Op: "settle"})
@@ -106,8 +110,14 @@ func c01Generate(r *rand.Rand, long bool) c01Scenario {
 			sc.Steps = append(sc.Steps, c01Step{Op: "reorg", D: 1 + r.Intn(15), N: 1 + r.Intn(18)})
 		case k < 70:
 			sc.Steps = append(sc.Steps, c01Step{Op: "restart"})
+			if r.Intn(2) == 0 {
+				sc.Steps = append(sc.Steps, c01Step{Op: "extend", N: 1 + r.Intn(4)}, c01Step{Op: "syncrace"})
+			}
 		case k < 80:
 			sc.Steps = append(sc.Steps, c01Step{Op: "drop"})
+			if r.Intn(2) == 0 {
+				sc.Steps = append(sc.Steps, c01Step{Op: "extend", N: 1 + r.Intn(4)}, c01Step{Op: "syncrace"})
+			}
 		case k < 88:
 			sc.Steps = append(sc.Steps, c01Step{Op: "partial", N: 1 + r.Intn(30)})
 		default:
@@ -202,6 +212,43 @@ func c01RunHook(r *rand.Rand, sc c01Scenario, probeEvery bool, setup func(*dsSim
 			// branch overtakes the block reply
 			if a := peer.announce(); len(a) > 0 {
 				s.overtakeBlocks(a)
+			}
+		case "syncrace":
+			// run until the node has been told that there are no more headers but has not
+			// finished its blocks; then the peer's chain grows by one
+			hit := false
+			s.pumpUntil(2000, func() bool {
+				hit = s.e.node.state.IsPendingSync() && !s.e.node.state.IsReady()
+				return hit
+			})
+			if !hit {
+				break
+			}
+			s.syncRaces++
+			if r.Intn(2) == 0 {
+				peer.tip = tree.Extend(peer.tip, nil)
+				break
+			}
+			// variant: the block processor finishes first; the peer's reply to the node's last
+			// header poll then carries one more block, which is fetched and taken into
+			// processing before the incoming side runs its periodic check again
+			s.pumpUntil(2000, func() bool { return s.e.node.state.IsReady() })
+			if !s.e.node.state.IsReady() || s.e.node.state.NotifiedSync() || s.crashed {
+				break
+			}
+			nb := tree.Extend(peer.tip, nil)
+			peer.tip = nb
+			s.handle(headersMsg(nb))
+			for i := 0; i < 4 && len(s.inbox) > 0 && s.popped == nil; i++ {
+				s.deliver()
+				s.guard("block processor pop", func() { s.popped = s.e.node.state.NextBlock() })
+			}
+			if s.popped != nil {
+				s.syncRaceWindows++
+				s.tracef("processor popped a block (not yet processed); the incoming side runs its check")
+				s.guard("check()", func() { s.e.node.check(s.e.ctx) })
+				s.feed()
+				s.finishPopped()
 			}
 		case "forkwindow":
 			// fork at a block the node has requested and not yet processed
@@ -314,7 +361,7 @@ func c01Fingerprint(sc c01Scenario) string {
 
 func c01NonTrivial(sc c01Scenario) bool {
 	for _, st := range sc.Steps {
-		if st.Op == "reorg" || st.Op == "restart" || st.Op == "drop" || st.Op == "revive" || st.Op == "race" || st.Op == "forkwindow" {
+		if st.Op == "reorg" || st.Op == "restart" || st.Op == "drop" || st.Op == "revive" || st.Op == "race" || st.Op == "forkwindow" || st.Op == "syncrace" {
 			return true
 		}
 	}
@@ -345,6 +392,8 @@ func runDSProperty(t *testing.T, prop string, rep *verifkit.Report, nShort, nLon
 			rep.Event("block_requests_judged_on_the_wire", int64(s.wireRequests))
 			rep.Event("block_rerequests_after_abandoned_branch", int64(s.rerequests))
 		rep.Event("forks_at_a_requested_unprocessed_block", int64(s.forkInWindow))
+		rep.Event("blocks_mined_between_end_of_headers_and_in_sync", int64(s.syncRaces))
+		rep.Event("checks_run_while_a_late_block_is_in_processing_before_the_insync_notification", int64(s.syncRaceWindows))
 			if s.maxRequested >= 10 {
 				rep.Event("scenarios_reaching_full_window", 1)
 			}
